@@ -38,7 +38,7 @@ REQUIRED = ["histories", "connections_up", "connections_down",
             "early_port_status", "reconnect_before_stale_close",
             "registry_checks", "registry_checks_in_up_handler", "send_probes",
             "loss_mid_handshake",
-            "barrier_unsupported_path"]
+            "barrier_unsupported_path", "reads_carrying_several_messages"]
 TIMEOUT = {"quick": 900, "thorough": 7200}
 
 # (datapath id 0 is a legal id: code that tests "if dpid:" instead of
@@ -241,9 +241,26 @@ def run_history (case, rep):
   rep.count("histories")
   uniq = [0]
   try:
-    for op in case["ops"]:
+    held = [None]
+    def flush ():
+      # bytes written earlier without letting the controller run are read now,
+      # in one piece
+      if held[0] is not None:
+        q = held[0]; held[0] = None
+        w.run()
+        rep.count("reads_carrying_several_messages")
+        if q.aborted: q.lost = True
+        mon.after_step("coalesced messages from peer %d" % q.idx)
+    for op in list(case["ops"]) + [["end"]]:
       if mon.bad: break
+      hold = False
+      if op[-1] == "hold":
+        op = op[:-1]; hold = True
       k = op[0]
+      if held[0] is not None and not (k == "msg" and mon.peers.get(op[1]) is held[0]):
+        flush()
+        if mon.bad: break
+      if k == "end": break
       if k == "connect":
         if op[1] in mon.peers: continue
         mon.connect(op[1])
@@ -361,6 +378,14 @@ def run_history (case, rep):
       if p.aborted and kind == "barrier_wrong":
         pass
       p.s.send(raw)
+      if hold and not p.aborted:
+        # the controller does not get to run: the next message of this peer
+        # lands in the same read
+        held[0] = p
+        continue
+      if held[0] is p:
+        flush()
+        continue
       w.run()
       if p.aborted:
         # the controller closes this connection; from now on it is gone
@@ -430,6 +455,15 @@ def gen_single (shard, nshards):
         ops = [["connect", 0]]
         ops += [["msg", 0] + list(x) for x in perm]
         ops.append(["msg", 0, fin])
+        hv = (i // 2) % 3
+        if hv:
+          # the handshake-completing reply shares a read with what follows it
+          # (hv 2: also with the asynchronous messages just before it)
+          ops[-1] = ops[-1] + ["hold"]
+          if hv == 2:
+            j = len(ops) - 2
+            while j > 0 and ops[j][2] in ("port_status", "echo", "packet_in", "error"):
+              ops[j] = ops[j] + ["hold"]; j -= 1
         ops += [["msg", 0, "port_status", 3], ["send", 0],
                 ["lose", 0, ("eof", "reset", "fatal", "app")[i % 4]], ["send", 0]]
         yield dict(ops=ops)
@@ -454,6 +488,9 @@ def gen_multi (rng, n, maxlen):
         ops.append(["lose", i, rng.choice(["eof", "reset", "fatal", "app"])])
       else:
         ops.append(["send", rng.randrange(2)])
+    if rng.random() < 0.5:
+      for o in ops:
+        if o[0] == "msg" and o[2] != "features" and rng.random() < 0.4: o.append("hold")
     yield dict(ops=ops)
 
 
@@ -472,6 +509,9 @@ def gen_reconnect (rng, n):
     if rng.random() < 0.3:
       tail.insert(2, ["connect", 2]); tail.insert(3, ["msg", 2, "features", 1 - d])
       tail.insert(4, ["msg", 2, "barrier_ok"])
+    if rng.random() < 0.4:
+      for o in ops + tail:
+        if o[0] == "msg" and o[2] in ("barrier_ok", "barrier_err"): o.append("hold")
     yield dict(ops=ops + tail)
 
 
